@@ -106,6 +106,15 @@ func jobsFor(id, tier string) []*Job {
 		ij.SolverMs = 2000
 		ij.MaxSteps = 1000000
 		add(split(ij)...)
+		// REPL sessions through the real StartREPL (line pool generated from /repo/runscript)
+		var rp [][]int
+		for sh := 0; sh < 8; sh++ {
+			rp = append(rp, []int{sh, 8})
+		}
+		rj := wmk("repl", "zzverifw.H_C01_repl", rp)
+		rj.TimeoutS = 300
+		rj.MaxSteps = 3000000
+		add(split(rj)...)
 		var sp [][]int
 		for sh := 0; sh < 6; sh++ {
 			sp = append(sp, []int{sh, 6})
@@ -175,7 +184,7 @@ func jobsFor(id, tier string) []*Job {
 		add(split(mj)...)
 	case "C19":
 		var fp [][]int
-		for hh := 0; hh < 17; hh++ {
+		for hh := 0; hh < 21; hh++ {
 			if thorough {
 				fp = append(fp, []int{hh, -1}) // every later program
 			} else {
@@ -213,6 +222,7 @@ func jobsFor(id, tier string) []*Job {
 			cp = append(cp, []int{sh, 13, 0})
 		}
 		add(split(wmk("constructs", "zzverifw.H_C06_constructs", cp))...)
+		add(split(wmk("capture", "zzverifw.H_C06_capture", ints(0, 12)))...)
 	case "C03":
 		var bp [][]int
 		for np := 0; np <= 3; np++ {
@@ -221,7 +231,7 @@ func jobsFor(id, tier string) []*Job {
 			}
 		}
 		add(split(wmk("bind", "zzverifw.H_C03_bind", bp))...)
-		add(split(wmk("scope", "zzverifw.H_C03_scope", ints(0, 17)))...)
+		add(split(wmk("scope", "zzverifw.H_C03_scope", ints(0, 18)))...)
 	case "C04":
 		nmax := 2
 		if thorough {
@@ -261,19 +271,22 @@ func jobsFor(id, tier string) []*Job {
 	case "C05":
 		var ps [][]int
 		for c := 0; c < 32; c++ { // 2 objects, names x and y, all 4 property kinds, first object sharded
-			ps = append(ps, []int{2, 4, c, 2})
+			ps = append(ps, []int{2, 4, c, 2, 0})
 		}
 		for c := 0; c < 32; c++ { // the same with a public and a private name (x, _y)
-			ps = append(ps, []int{2, 4, c, 3})
+			ps = append(ps, []int{2, 4, c, 3, 0})
 		}
 		if thorough {
 			for c := 0; c < 32; c++ { // 3 objects, two names, all kinds
-				ps = append(ps, []int{3, 4, c, 2})
+				ps = append(ps, []int{3, 4, c, 2, 0})
 			}
 		} else {
 			for c := 0; c < 6; c++ { // 3 objects, one name, kinds absent/value/function
-				ps = append(ps, []int{3, 3, c, 1})
+				ps = append(ps, []int{3, 3, c, 1, 0})
 			}
+		}
+		for c := 0; c < 6; c++ { // 2 objects whose root is a child of a concrete str / arr / int value (solver choice)
+			ps = append(ps, []int{2, 3, c, 1, 1})
 		}
 		add(split(wmk("forest", "zzverifw.H_C05_forest", ps))...)
 	case "C14":
@@ -298,6 +311,9 @@ func jobsFor(id, tier string) []*Job {
 					if narrow == 1 && (op == 1 || op == 2 || thorough) {
 						ps = append(ps, []int{l, i, op, narrow, 1, -1}) // family without declared parameters
 					}
+					if narrow == 1 && (op <= 2 || thorough) && i == 0 {
+						ps = append(ps, []int{l, i, op, narrow, 2, -1}) // family whose first yield gives nil for one argument value
+					}
 				}
 			}
 		}
@@ -310,6 +326,8 @@ func jobsFor(id, tier string) []*Job {
 		add(split(wmk("try", "zzverifw.H_C13_try", ints(1, kmax)))...)
 		ru := wmk("reuse", "zzverifw.H_C13_reuse", nil)
 		add(&ru)
+		ne := wmk("nested", "zzverifw.H_C13_nested", nil)
+		add(&ne)
 	case "C18":
 		var eqp [][]int
 		for a := 0; a < 14; a++ {
@@ -331,7 +349,7 @@ func jobsFor(id, tier string) []*Job {
 		add(split(wmk("ord", "zzverifw.H_C18_ord", ints(0, 5)))...)
 		add(split(wmk("trans", "zzverifw.H_C18_trans", ints(0, 5)))...)
 	case "C08":
-		o := wmk("order", "zzverifw.H_C08_order", ints(0, 38))
+		o := wmk("order", "zzverifw.H_C08_order", ints(0, 41))
 		o.MapOrder = 1
 		o.ReplayRepeat = 400
 		if thorough {
@@ -353,7 +371,7 @@ func jobsFor(id, tier string) []*Job {
 		}
 		add(split(wmk("defer", "zzverifw.H_C15_defer", ps))...)
 	case "C12":
-		add(split(wmk("truth", "zzverifw.H_C12_truth", ints(0, 25)))...)
+		add(split(wmk("truth", "zzverifw.H_C12_truth", ints(0, 26)))...)
 	case "C10":
 		im := mk("bin", "zzverifw.H_C10_bin", ints(0, 4)) // + - * // % : Int theory with explicit wrap
 		im.IntMode = true
@@ -418,7 +436,7 @@ func assumptionsFor(id string) []string {
 	case "C05":
 		return append(common, "every object carries a unique id property, so structural == (used by ancestors/kindOf?) coincides with identity", "forest model (parent, defined kinds, _missing) kept by the harness; expected raw property values are read from the definer's own Pairs map")
 	case "C14":
-		return append(common, "iterator families: <{|n| yield n * 10 + 1 if n < lim; recur(n + d)}> and the same body written without declared parameters (<{yield \\ * 10 + 1 if \\ < lim; recur(\\ + d)}>), with lim in [-2,5], d in [1,3], start values in [-3,5] — all symbolic within those ranges", "reference = per-iterator state machine in the harness (DESIGN.md 5.14)")
+		return append(common, "iterator families: <{|n| yield n * 10 + 1 if n < lim; recur(n + d)}>, a body whose first yield gives nil for one argument value z in [-3,5] and is followed by a second yield and a non-nil last statement (<{|n| yield (nil if n == z else n * 10 + 1) if n < lim; recur(n + d); yield 77; n * 10 + 7}>), and the first body written without declared parameters (<{yield \\ * 10 + 1 if \\ < lim; recur(\\ + d)}>), with lim in [-2,5], d in [1,3], start values in [-3,5] — all symbolic within those ranges", "reference = per-iterator state machine in the harness (DESIGN.md 5.14)")
 	case "C13":
 		return append(common, "steps are methods of a receiver object, literal calls, and operator calls written in chain form (.+(n)); step names are ones the Either wrapper does not define itself (DESIGN.md Appendix B, C13 domain note) — names the wrapper's own prototype chain answers (A, val, ==, S, p, keys ...) never reach the _missing proxy and are outside the domain", "failures are injected inside the callee (step(i) raises iff i == K); a raise during argument evaluation happens before the call and is not a failure of the step")
 	case "C18":
@@ -453,13 +471,14 @@ func boundsFor(id, tier string, jobs []*Job) map[string]interface{} {
 		} else {
 			b["arity"] = "0 and 1 argument for every built-in; 2 arguments for a quarter of them (6 of 24 shards)"
 		}
+		b["repl"] = "sessions of three lines through the real StartREPL: first line any line of the generated pool (every string literal of /repo/runscript - the REPL's commands and prompts - as written, upper / lower / capitalised, with leading / trailing blanks, truncated, doubled, with a trailing ;) or a program; second line a command, a miscased command, a program, an unfinished program or empty; third line 1 + 1"
 		b["indexers"] = "every built-in named at (what recv[index] calls) with receiver any shape and index any shape, incl. [i] with i any int64 and [(a:b:c)] / (a:b:c) with each bound nil or any int64"
 		b["argument_shapes"] = "symbolic int, symbolic float, nil, bool, strs, arrays, objects, maps, ranges, function, iterator, Either values, error value, prototypes, bear children, symbol, char (solver choice per position)"
 		b["second_step"] = "for arity 0..1 every non-error result is then printed, compared, unpacked with * and ** into calls and literals, iterated and interpolated (14 consumers)"
 		b["singletons"] = "every name of the constants environment x 15 generic probes (printing, lookup, comparison, bear, which, try)"
 	case "C17":
 		b["int_literals"] = "decimal / hex / octal / binary: 7..16 spellings each (underscores, leading zeros, prefix case, values at and beyond 2^63-1 and 2^64-1); plus EVERY literal of 1..2 digits over the full digit alphabet of each base (hex in both letter cases), optionally followed by 0 / the largest digit / _1, with either prefix case"
-		b["exponent_ints"] = "9 mantissas x 11 exponents x e/E"
+		b["exponent_ints"] = "17 mantissas (incl. leading zeros: 010, 0_10, 09, 0012, 0100, 0, 00, 08) x 11 exponents x e/E"
 		b["floats"] = "14 spellings incl. subnormal, max, overflow, double-rounding-sensitive decimals"
 		b["strings"] = "17 bodies: documented escapes, multi-byte text, undefined escapes"
 		if tier == "thorough" {
@@ -485,22 +504,23 @@ func boundsFor(id, tier string, jobs []*Job) map[string]interface{} {
 		}
 		b["mixed_forms"] = "28 templates (the prefix operator in a template is a solver choice of - + ! /~): prefix vs chain / infix / **, chain vs infix, indexing and calling vs prefix, calls and indexes as operands, := += => (right-to-left, relative levels), return / raise, if / if-else with infix conditions and branches, arguments and index expressions — infix slots are solver choices (third slot: one operator per level)"
 	case "C19":
-		b["builtins_as_operands"] = "history = one of the 54 call-site / literal constructs of C06 (keyword and positional unpacking, ** merging, bear / bro / patch, concatenation, interpolation, chains, digest, equality) applied to the SHARED built-in objects (Int, Str, Obj, Arr, Nil, Map, Float, Func, BaseObj, Iterable, Comparable) under 3 bindings (solver choice); afterwards the whole constants environment is fingerprint-equal and a fresh program sees the same property lists"
-		b["program_family"] = "17 programs (incl. three that run built-in iterators past their end): value, raise, nested raise, the variable _, abstract Either props, NoPropErr, shadowing built-in names, failing chain, bear, try capturing _, raising defer, abandon, interpolation"
+		b["builtins_as_operands"] = "history = one of the 58 call-site / literal constructs of C06 (keyword and positional unpacking, ** merging, bear / bro / patch, concatenation, interpolation, chains, digest, equality) applied to the SHARED built-in objects (Int, Str, Obj, Arr, Nil, Map, Float, Func, BaseObj, Iterable, Comparable) under 3 bindings (solver choice); afterwards the whole constants environment is fingerprint-equal and a fresh program sees the same property lists"
+		b["program_family"] = "21 programs (incl. three that run built-in iterators past their end and four that reach the abstract Either props by indexing, at and callProp): value, raise, nested raise, the variable _, abstract Either props, NoPropErr, shadowing built-in names, failing chain, bear, try capturing _, raising defer, abandon, interpolation"
 		if tier == "thorough" {
 			b["pairs"] = "every (history program, later program) pair: 14 x 14, later program a solver choice"
 		} else {
-			b["pairs"] = "every history program x later program in {same program, _, Either.A, plain raise, exhausted array iterator, exhausted str iterator after withI} (solver choice)"
+			b["pairs"] = "every history program x later program in {same program, _, Either.A, plain raise, exhausted array iterator, exhausted str iterator after withI, Either['A]} (solver choice)"
 		}
 		b["runtest"] = "3 first files x 3 second files through the real setup + runTest"
 	case "C06":
 		b["pool"] = "12 live values: array built by a literal (spare capacity), str, object with nested array, map with array key, range, int, float, function, bear child, nested array, a range whose step is a child of an int, an array whose elements are children of an int / str / array"
 		b["single_step"] = "receiver: each pool value; property: EVERY name reachable from its prototype chain (solver choice); argument: none or one of 9 pool values (solver choice)"
-		b["constructs"] = "two of 54 call-site / literal constructs in sequence (keyword and positional unpacking, ** merging of objects and maps, bear / bro / patch, concatenation, interpolation, chains, digest, variadic parameters), all 54 x 54 ordered pairs"
+		b["constructs"] = "two of 58 call-site / literal constructs in sequence (keyword and positional unpacking, ** merging of objects and maps, bear / bro / patch, concatenation, interpolation, chains, digest, variadic parameters), all 58 x 58 ordered pairs"
+		b["captured_values"] = "13 chain programs (list, strict-list, reduce and thoughtful reduce chains in literal and variable-call form over arrays, objects, maps and an iterator) in which each step keeps the value it received - in the result or in a closure - and the kept values are read back at the end; payloads any int in (1, 100)"
 		b["two_steps"] = "first any Arr property on the literal array with argument [7] / 2 / function; then one of 8 array-building properties (+ * append prepend zip chain map rev) on the same receiver or on the first result; payloads concrete (quick) and symbolic ints in (1, 100) (thorough)"
 	case "C03":
 		b["binding"] = "0..3 positional and 0..2 keyword parameters (all 12 signatures) x 0..4 positional arguments (tail optionally as *[...]) x each of k1, k2 and one keyword the function does not declare (named zz, p1 like the first positional parameter, or g like the outer variable the body reads: solver choice) absent / before the positionals / after them / through **{...} (solver choices)"
-		b["scoping"] = "18 scenarios (incl. an undeclared keyword named like a parameter / outer variable; nested * and ** unpacking of the same array / object in one call; closure sees later reassignment, never the caller's scope, assignment and compound assignment stay local, sibling isolation, recursion frames, shadowing, function-making functions, receiver first, receiver-less chain, fresh frame per call, closures made in a chain, nested closures, method scope) with inputs a, b any int in (-10^6, 10^6)"
+		b["scoping"] = "19 scenarios (incl. keyword defaults of a literal evaluated twice in different scopes; an undeclared keyword named like a parameter / outer variable; nested * and ** unpacking of the same array / object in one call; closure sees later reassignment, never the caller's scope, assignment and compound assignment stay local, sibling isolation, recursion frames, shadowing, function-making functions, receiver first, receiver-less chain, fresh frame per call, closures made in a chain, nested closures, method scope) with inputs a, b any int in (-10^6, 10^6)"
 	case "C04":
 		if tier == "thorough" {
 			b["elements"] = "arrays of 1..3 elements"
@@ -518,15 +538,15 @@ func boundsFor(id, tier string, jobs []*Job) map[string]interface{} {
 			b["object_literals"] = "1..3 pairs, or 1..2 pairs + a ** of 2 pairs; every name a solver choice from {a, b, _p}"
 			b["map_literals"] = "1..2 pairs, 1 pair + a ** of 1 pair, and 0..1 pairs + two ** expansions of 1 pair each"
 		}
-		b["map_keys"] = "kind per key a solver choice of int (any int64), float (any non-NaN, non -0.0 pattern), str (pool of 2), nil, bool, one-element array of any int64 — whether two keys collide is decided by the solver"
+		b["map_keys"] = "kind per key a solver choice of int (any int64), float (any non-NaN, non -0.0 pattern), str (pool of 4, incl. the names len and keys of Map's own properties), nil, bool, one-element array of any int64 — whether two keys collide is decided by the solver; the first pair stores an int or nil (solver choice)"
 		b["accessors"] = "keys / values / items (with and without private?: true), iteration, len, o['name], o.name, m[k] for every written key and for a fresh symbolic int key"
 	case "C05":
 		if tier == "thorough" {
 			b["forest"] = "2 and 3 objects; each later object is a bear child or a bro sibling of a solver-chosen earlier object"
-			b["properties"] = "names x, y: absent / value / function / method per object; _missing present or not per object; lookups of x, y and the never-defined z and _w on every object; 2-object forests also with the name set {x, _y} (a private name)"
+			b["properties"] = "names x, y: absent / value / function / method per object; _missing present or not per object; lookups of x, y and the never-defined z and _w on every object; 2-object forests also with the name set {x, _y} (a private name), and with a root that is a bear child of a concrete str / arr / int value"
 		} else {
 			b["forest"] = "2 objects (names x, y; all property kinds) and 3 objects (name x; kinds absent / value / function); each later object is a bear child or a bro sibling of a solver-chosen earlier object"
-			b["properties"] = "names x, y per object; _missing present or not per object; lookups of x, y and the never-defined z and _w on every object; 2-object forests also with the name set {x, _y} (a private name)"
+			b["properties"] = "names x, y per object; _missing present or not per object; lookups of x, y and the never-defined z and _w on every object; 2-object forests also with the name set {x, _y} (a private name), and with a root that is a bear child of a concrete str / arr / int value"
 		}
 		b["accessors"] = "o.name(7), o['name], which, proto, ancestors, kindOf? (all pairs), keys"
 	case "C14":
@@ -546,16 +566,17 @@ func boundsFor(id, tier string, jobs []*Job) map[string]interface{} {
 		b["step_forms"] = "property call, literal call, operator call in chain form, property call with a positional and a keyword argument, property call with two positional arguments — all 5^k combinations (solver choices)"
 		b["failure"] = "K any value in [0, k] (0 = none); error kind one of ValueErr, TypeErr, ZeroDivisionErr, NameErr, NoPropErr, AssertionErr"
 		b["accessors"] = "A, val, err, val?, err?, or, abandon, catch (matching and non-matching type), ignore"
+		b["nested"] = "a step (literal, method, literal after an operator step) that succeeds with an Either value (failed or not) as its result; a chain started on an Either value; receiver any int in (2, 1000)"
 		b["reuse"] = "an Either bound to a name and continued two or three ways (operator step, literal step, failing step, catch), receiver any int in (2, 1000)"
 	case "C18":
-		b["payloads"] = "ints: any int64; floats: any 64-bit pattern; strs: pool of 4; containers: one symbolic int element/key/bound"
+		b["payloads"] = "ints: any int64; floats: any 64-bit pattern; strs: pool of 4; containers: a symbolic int element/key/bound in several shapes that are sub- and supersets of each other (arrays of 0..2 elements; objects {}, {a}, {a, b}, a bear child; maps with scalar and non-scalar keys: {n}, {n, [1]}, {n, 'k}, {[1]}, {[1], {a: 1}}, {})"
 		if tier == "thorough" {
 			b["pairs"] = "all 14 x 14 kind pairs for the equality laws; 6 ordered kinds for order laws; triples of one ordered kind for transitivity"
 		} else {
 			b["pairs"] = "14 same-kind + 14 cross-kind pairs for the equality laws; 6 ordered kinds for order laws; triples of one ordered kind for transitivity"
 		}
 	case "C08":
-		b["templates"] = "39 constructs (incl. every scalar chain kind and the lonely / thoughtful list chains with nil receivers, nil elements and empty receivers; 4 of them written over several source lines) with side-effecting slots mark(i): array/object/map literals, range bounds, infix operands, positional + keyword arguments, receiver/chain argument/arguments/kwargs of a chained property call, interpolated string parts, duplicate kwargs/object keys/map keys, ** unpacking into objects/maps/calls, keys, printing, equality, kwarg defaults, object/map iteration, nested calls"
+		b["templates"] = "42 constructs (incl. equality of objects / maps whose entries both differ and raise in ==; every scalar chain kind and the lonely / thoughtful list chains with nil receivers, nil elements and empty receivers; 4 of them written over several source lines) with side-effecting slots mark(i): array/object/map literals, range bounds, infix operands, positional + keyword arguments, receiver/chain argument/arguments/kwargs of a chained property call, interpolated string parts, duplicate kwargs/object keys/map keys, ** unpacking into objects/maps/calls, keys, printing, equality, kwarg defaults, object/map iteration, nested calls"
 		b["map_sizes"] = "Go maps with 2..4 entries are permuted; larger maps iterate in insertion order"
 		if tier == "thorough" {
 			b["orders"] = "all n! permutations per range"
@@ -575,7 +596,7 @@ func boundsFor(id, tier string, jobs []*Job) map[string]interface{} {
 		b["statement_kinds"] = "mark; defer mark; defer mark if g (g any int64); return v if k == i; raise if k == i; nested failing call (with its own defer) if k == i; defer that raises — all 7^n shapes, exit point k any int64"
 		b["nesting"] = "function called from an enclosing function that continues after the call (defer leak to the caller is visible)"
 	case "C12":
-		b["condition_values"] = "int: any int64; float: any 64-bit pattern (NaN, infinities, signed zeros); str/arr/obj/map: empty and one-element; nil; true; false; Int.bear.new(v) for any int64 v; bear child of an array; object with user-defined B returning either boolean; range; function; objects whose B is a non-boolean value, nil, or a method returning a non-boolean; a BaseObj child with no B at all; descendants that carry their own B (either boolean): Int.bear({B}).new(v) and v.bear({B}) for any int64 v, Float.bear({B}).new(f) for any bit pattern, Str / Arr descendants (empty and not), a child of nil, a grandchild inheriting B, a child of an empty / non-empty map"
+		b["condition_values"] = "int: any int64; float: any 64-bit pattern (NaN, infinities, signed zeros); str/arr/obj/map: empty and one-element; nil; true; false; Int.bear.new(v) for any int64 v; bear child of an array; object with user-defined B returning either boolean; range; function; objects whose B is a non-boolean value, nil, or a method returning a non-boolean; a BaseObj child with no B at all; descendants that carry their own B (either boolean): Int.bear({B}).new(v) and v.bear({B}) for any int64 v, Float.bear({B}).new(f) for any bit pattern, Str / Arr descendants (empty and not), a child of nil, a grandchild inheriting B, a child of an empty / non-empty map; booleans produced by 15 operations / built-ins in both polarities (JSON.dec at top level, in an array, in an object; == != === < ! kindOf? empty? val? err? B any? all? even? has?)"
 		b["constructs"] = "c.B, `x if c else y`, `x if c`, !c, c && x, c || x, guarded return / raise / yield / defer (11 templates per condition value)"
 	case "C10":
 		b["operands"] = "a, b: any int64 (full 64-bit range) for + - * // % <=> / and unary -, called through the IntProps table and (except /) through parsed source `a op b` evaluated by Eval in the bootstrapped world (plus < == >=)"
@@ -600,7 +621,7 @@ func boundsFor(id, tier string, jobs []*Job) map[string]interface{} {
 func outsideFor(id string) []string {
 	switch id {
 	case "C01":
-		return []string{"arbitrary source text through the regex lexer and the grammar's error paths (token-level parsing is exercised by C02 / C17)", "stdin contents, REPL and CLI wiring, the HTTP module, file and process I/O built-ins", "recursion-depth and memory exhaustion (excluded by the statement), e.g. huge repeat counts", "three or more arguments, keyword arguments", "programs composed of several calls (covered per construct by C03..C15)"}
+		return []string{"arbitrary source text through the regex lexer and the grammar's error paths (token-level parsing is exercised by C02 / C17)", "stdin contents beyond the REPL sessions listed, CLI flag wiring, the playground server, the HTTP module, file and process I/O built-ins", "recursion-depth and memory exhaustion (excluded by the statement), e.g. huge repeat counts", "three or more arguments, keyword arguments", "programs composed of several calls (covered per construct by C03..C15)"}
 	case "C17":
 		return []string{"integer and string spellings outside the pools (digits are not symbolic: no symbolic-content strings in the engine)", "symbols and property positions of names (only variable position is replayed)", "raw strings, char literals, embedded strings' pieces", "names longer than the bound or outside ASCII"}
 	case "C16":
